@@ -50,6 +50,7 @@ Definition SIG_LDAP_ACCEPT := 5%N.
 Definition SIG_LDAP_REJECT := 6%N.
 Definition SIG_LDAP_UNGATED := 7%N.   (* modify/add/delete/modifyDN/compare succeeded without a login *)
 Definition SIG_LDAP_EVENT := 8%N.
+Definition SIG_LDAP_OLDVER_EVENT := 14%N.  (* bind with version < 2: the event lacks the name/password presented *)
 Definition SIG_FTP_ACCEPT := 9%N.
 Definition SIG_FTP_REJECT := 10%N.
 Definition SIG_FTP_UNGATED := 11%N.   (* a file/directory command was not refused before login *)
@@ -125,7 +126,11 @@ Fixpoint ldap_sig_walk (creds : list str) (logged : bool) (reqs : list lreq)
   | r :: reqs', rp :: rps', ev :: evs' =>
       match r with
       | LBind ver dn pw =>
-          if ver <? 2 then ldap_sig_walk creds logged reqs' rps' evs'
+          if ver <? 2 then
+            (* refused as a protocol error, whatever the credentials; any other failure later in
+               the case is reported first *)
+            orsig (ldap_sig_walk creds logged reqs' rps' evs')
+                  (if levent_bind_ok dn pw ev then 0%N else SIG_LDAP_OLDVER_EVENT)
           else
             let ok := reply_ok rp in
             let s := ldap_spec creds dn pw in
